@@ -336,6 +336,10 @@ func c14Remove(res *engine.Result, payload []byte, sec *ref.PMTSection, pmtPID i
 		}
 		removed := map[int]bool{}
 		engine.Guard(res, "RemoveElementaryStreams", func() {
+			for _, p := range pids {
+				_ = pmt.PIDExists(p) // queries before the removal
+				_ = pmt.IsPidForStreamWherePresentationLagsEbp(p)
+			}
 			for _, l := range calls {
 				if len(l) == 1 && l[0] <= c14OwnPids {
 					own := pmt.Pids()
@@ -525,6 +529,18 @@ func c14RemoveBig(res *engine.Result, payload []byte, sec *ref.PMTSection) {
 			return
 		}
 		arg := append([]int(nil), l...)
+		// every query once BEFORE the removal (whatever the object remembers from them must not outlive it)
+		engine.Guard(res, "RemoveElementaryStreams|queries-before", func() {
+			for _, p := range pids {
+				if !pmt.PIDExists(p) {
+					res.Failf("RemoveElementaryStreams|many-streams|PIDExists-before", "PIDExists(%#x) false on the fresh table", p)
+					break
+				}
+				_ = pmt.IsPidForStreamWherePresentationLagsEbp(p)
+			}
+			_ = pmt.PIDExists(c14Absent[0])
+			_ = len(pmt.Pids()) + len(pmt.ElementaryStreams())
+		})
 		engine.Guard(res, "RemoveElementaryStreams", func() { pmt.RemoveElementaryStreams(arg) })
 		removed := map[int]bool{}
 		for _, p := range l {
